@@ -618,6 +618,13 @@ class Folder:
                 if name in ("range", "enumerate", "zip", "reversed"):
                     r = list(r)
                 return r
+            if name == "next" and args and isinstance(args[0], list) and isinstance(e.args[0], ast.GeneratorExp):
+                # first element of a folded generator expression
+                if args[0]:
+                    return args[0][0]
+                if len(args) > 1:
+                    return args[1]
+                raise NotConst("next() of an empty generator")
             if name == "sorted":
                 key = kwargs.get("key")
                 rev = bool(kwargs.get("reverse", False))
